@@ -63,6 +63,21 @@ def gen_facts(tier):
                 F.append(factmod.Fact("storage/%s/%d/%s/max-positive" % (nm, D, n), "(std::numeric_limits<%s>::max() > %s{0})" % (T, T), 1, may_reject=True))
                 if sg:
                     F.append(factmod.Fact("storage/%s/%d/%s/lowest-negative" % (nm, D, n), "(std::numeric_limits<%s>::lowest() < %s{0})" % (T, T), 1, may_reject=True))
+    # limits: the declared range is the N-digit one whatever storage the narrowest type leads to (seeded change M-C11-4 got
+    # the shift count wrong when the rep has whole unused narrowest-widths above the digits); single-word digit counts, so
+    # that the value is a plain constant
+    ldigs = [7, 8, 15, 16, 20, 23, 24, 31, 32, 40, 47, 55, 62, 63] if tier == "quick" else list(range(1, 64))
+    for D in ldigs:
+        for n, sg in (("int", 1), ("std::int8_t", 1), ("std::int16_t", 1), ("std::int64_t", 1), ("unsigned", 0), ("std::uint8_t", 0), ("std::uint16_t", 0)):
+            W = "wide_integer<%d, %s>" % (D, n)
+            if D < 63 or sg:
+                F.append(factmod.Fact("limits/wide/%d/%s/max" % (D, n), "(long long)cnl::unwrap(std::numeric_limits<%s>::max())" % W, 2 ** D - 1, may_reject=True,
+                                      meta=dict(anchor="include/cnl/_impl/wide_integer/numeric_limits.h")))
+            F.append(factmod.Fact("limits/wide/%d/%s/lowest" % (D, n), "(long long)cnl::unwrap(std::numeric_limits<%s>::lowest())" % W, -(2 ** D) if sg else 0, may_reject=True))
+            if sg:
+                T = si(D, "nearest", "sat", n)
+                F.append(factmod.Fact("limits/static_integer/%d/%s/max" % (D, n), "(long long)cnl::unwrap(std::numeric_limits<%s>::max())" % T, 2 ** D - 1, may_reject=True))
+                F.append(factmod.Fact("limits/static_integer/%d/%s/lowest" % (D, n), "(long long)cnl::unwrap(std::numeric_limits<%s>::lowest())" % T, -(2 ** D - 1), may_reject=True))
     pairs = [(a, b) for a in digs for b in digs if a <= 64 and b <= 64]
     if tier == "quick":
         pairs = [(7, 7), (15, 15), (15, 7), (31, 31), (31, 32), (32, 63), (8, 1), (1, 64), (63, 63), (16, 17), (64, 64), (63, 64)]
